@@ -20,6 +20,54 @@ def oracleOf (t : Term) (o : Obs) : Option Spec.Verdict :=
   | some c => some (Spec.check c o)
   | none => (dcaseOf? t).map fun d => DSpec.check d o
 
+def recKind : Rec → String
+  | .bmpRm .. => "bmp-rm"
+  | .bmpUp .. => "bmp-up"
+  | .bmpDown .. => "bmp-down"
+  | .bmpInit _ => "bmp-init"
+  | .bmpStats => "bmp-stats"
+  | .bmpTerm => "bmp-term"
+  | .bmpMirror => "bmp-mirror"
+  | .mrtMp .. => "mrt-mp"
+  | .tdPeers .. => "td-peers"
+  | .tdRib .. => "td-rib"
+
+def evKind : Ev → String
+  | .rm .. => "ev-rm"
+  | .out .. => "ev-out"
+  | .locRib .. => "ev-loc"
+  | .mrt .. => "ev-mrt"
+  | .down .. => "ev-down"
+  | .locUp .. => "ev-locup"
+  | .live .. => "ev-live"
+  | .flush .. => "ev-flush"
+  | .dump .. => "ev-dump"
+
+/-- kind of the first record that puts a packet-level case outside the domain -/
+def firstOod : Option Nat → List Rec → Option String
+  | _, [] => none
+  | np, r :: rs => if Spec.recDom np r then firstOod (Spec.nextPeers np r) rs else some (recKind r)
+
+def firstOodItem : Option Nat → List Item → Option String
+  | _, [] => none
+  | np, .pkt r :: is => if Spec.recDom np r then firstOodItem (Spec.nextPeers np r) is else some (recKind r)
+  | np, .ev e :: is => if DSpec.evDom e then firstOodItem (DSpec.evNext np e) is else some (evKind e)
+
+/-- mode `stats` (evidence only): is the case judged by the oracle or outside its domain (and through which kind) -/
+def statsOf (t : Term) : String :=
+  match caseOf? t with
+  | some c =>
+    match firstOod none c.recs with
+    | none => "judged=1"
+    | some k => s!"out-of-domain=1 ood:{k}=1"
+  | none =>
+    match dcaseOf? t with
+    | some d =>
+      match firstOodItem none d.items with
+      | none => "judged=1"
+      | some k => s!"out-of-domain=1 ood:{k}=1"
+    | none => "bad-case=1"
+
 /-- mode `model`: case ↦ observation of the model;
     mode `oracle`: case TAB observation ↦ verdict of the C19 reference checker. -/
 def handler (mode : String) (line : String) : String :=
@@ -40,6 +88,10 @@ def handler (mode : String) (line : String) : String :=
               | some v => verdictStr v
               | none => "(bad-case)"
             | none => "fail idx=0 clause=unparsable-observation"
+      | _ => "(bad-line)"
+  | "stats" =>
+      match parseMany line with
+      | some (c :: _) => statsOf c
       | _ => "(bad-line)"
   | _ => "(bad-mode)"
 
